@@ -199,6 +199,11 @@ func runC17(t *zsim.Tape, cfg *hlib.Config) *hlib.Outcome {
 	d := zsim.NewDisk(w)
 	d.Put("/src/main.zn", data)
 	eioPlanned := false
+	if sc.Profile == "stream" && t.Draw(3) == 2 {
+		// the source is a named pipe / process substitution: stat reports size 0
+		d.PutPipe("/src/main.zn", data)
+		sc.Class += "+pipe(stat size 0)"
+	}
 	if sc.Profile == "stream" {
 		d.ReadMode = 1
 		d.Enabled[zsim.FReadShort] = true
